@@ -1,49 +1,339 @@
 # -*- coding: utf-8 -*-
 """
-C05 -- prototype
+C05 -- reactions conserve mass and atoms and convert exactly X of the reactant.
+
+Contracts (sidecar) on the real functions of thermosteam/reaction/_reaction.py, _parse.py, _xparse.py
+(executed, never re-implemented).  Every `ensures` is a sentence of the property:
+
+  * stoichiometric update: a single reaction consumes exactly X * feed of its reactant and produces the
+    others in stoichiometric proportion (nu_k / |nu_r|); parallel reactions take every extent from the feed,
+    series reactions (and the members of a reaction system) from the running composition;
+  * conservation: for a balanced stoichiometry the total mass and every element flow are unchanged;
+  * mol and wt basis give the same stream;
+  * on normal return no flow is negative; InfeasibleRegion is the allowed alternative, and only when a flow
+    would be negative.
+
+Balanced stoichiometry is a PRECONDITION (w.assume): an abstract formula matrix F[e,k] >= 0 (2 elements) with
+sum_k F[e,k]*nu_k == 0, and the molecular weights are the real database floats with sum_k MW_k*nu_k == 0 assumed
+as a separate row (choice stated in the report: MW is not tied to F).  Symbolic: every stoichiometric
+coefficient, every conversion X in [0,1], every feed flow >= 0, F.
+
+Round-off cleaning is part of the mechanism the property names (anchor "raises InfeasibleRegion on negative flows
+below -1e-12 and zeroes round-off negatives"): under A-real a flow e in [-1e-12, 0) is set to 0 instead of raising,
+so the per-chemical clause reads  m' == e  or  (-1e-12 <= e < 0 and m' == 0)  and conservation is exact whenever no
+expected flow is negative, within 1e-12 * weight otherwise.
 """
+import itertools
 import numpy as np
 import thermosteam as tmo
+from thermosteam.exceptions import InfeasibleRegion, UndefinedChemicalAlias
+from thermosteam.base import SparseVector, SparseArray
 from engine.api import group
 from engine.sx import tmo_world as W
-
 from engine.sx.sym import SymReal as _SymReal
+
+# ---- engine adaptation, local to C05 runs (reported): SymReal must look like a float to the code under check
+#  * float has no __len__: `isinstance(coefficient, Sized)` in _xparse.get_phases must be False
+#  * DictionaryView.__setitem__ calls value.__float__() explicitly (mass-flow views); identity on symbolic reals,
+#    the builtin float(SymReal) still raises TypeError (-> EngineUnsupported)
 if '__len__' in _SymReal.__dict__:
     del _SymReal.__len__
-P3 = ('Water', 'Ethanol', 'Methanol')
-W.preload([P3])
+if '__float__' not in _SymReal.__dict__:
+    _SymReal.__float__ = lambda self: self
+
+P3 = ('Water', 'Ethanol', 'Methanol')            # the reaction's package
+P4 = ('Water', 'Ethanol', 'Methanol', 'Octane')
+Q3 = ('Methanol', 'Water', 'Ethanol')            # same chemicals, other order (another package object)
+Q4 = ('Octane', 'Methanol', 'Water', 'Ethanol')  # reordered superset of P3
+PKG = {'P3': P3, 'P4': P4, 'Q3': Q3, 'Q4': Q4}
+W.preload([P3, P4, Q3, Q4])
+PH = ('g', 'l')
+N_ELEM = 2
+TOL = 1e-12        # the round-off threshold of Reaction.__call__ (property anchor)
 
 
-def _rxn_leaves(w, tag, IDs, reactant):
+# --------------------------------------------------------------------------- specification side (the statement)
+
+class Spec:
+    """One written reaction: coefficients nu[(phase|None, ID)], reactant key, conversion, basis."""
+    def __init__(self, nu, r, X, basis):
+        self.nu, self.r, self.X, self.basis = nu, r, X, basis
+
+
+def spec_single(sp, u):
+    ext = u[sp.r] * sp.X / (-sp.nu[sp.r])
+    return {k: u[k] + ext * sp.nu[k] if k in sp.nu else u[k] for k in u}
+
+
+def spec_parallel(sps, u):
+    new = dict(u)
+    for sp in sps:                      # every extent from the FEED composition u
+        ext = u[sp.r] * sp.X / (-sp.nu[sp.r])
+        for k in sp.nu:
+            new[k] = new[k] + ext * sp.nu[k]
+    return new
+
+
+def spec_series(sps, u):
+    for sp in sps:                      # running composition
+        u = spec_single(sp, u)
+    return u
+
+
+def spec_apply(prog, u):
+    kind = prog['kind']
+    if kind == 'single': return spec_single(prog['specs'][0], u)
+    if kind == 'parallel': return spec_parallel(prog['specs'], u)
+    if kind == 'series': return spec_series(prog['specs'], u)
+    if kind == 'system':
+        for m in prog['members']: u = spec_apply(m, u)
+        return u
+    raise AssertionError(kind)
+
+
+def all_specs(prog):
+    if prog['kind'] == 'system':
+        return [s for m in prog['members'] for s in all_specs(m)]
+    return prog['specs']
+
+
+# --------------------------------------------------------------------------- building the real objects
+
+def _mw(IDs):
+    chems = W.thermo(IDs).chemicals
+    return {ID: float(x) for ID, x in zip(chems.IDs, chems.MW)}
+
+
+def weights(w, IDs):
+    """Conservation rows per mol of chemical: real MW, abstract formula rows F[e, k] >= 0."""
+    rows = {'mass': _mw(IDs)}
+    for e in range(N_ELEM):
+        rows[f'element{e}'] = {ID: w.real(f'F{e}.{ID}', lo=0.) for ID in IDs}
+    return rows
+
+
+def make_spec(w, tag, desc, basis, rows, mw, unit_reactant=False):
+    """
+    desc = {'nu': [[ID, phase|None], ...], 'reactant': ID}.  Plants the coefficients (reactant < 0, others any real),
+    the conversion in [0,1], and ASSUMES that the stoichiometry is balanced for every conservation row.
+    For basis 'wt' the coefficients are per mass, i.e. the molar coefficient is nu_k / MW_k.
+    """
     nu = {}
-    for ID in IDs:
-        if ID == reactant:
-            nu[ID] = w.real(f'{tag}.nu.{ID}', hi=0., hi_strict=True)
+    r = None
+    for ID, ph in desc['nu']:
+        if ID == desc['reactant']:
+            r = (ph, ID)
+            nu[ph, ID] = -1. if unit_reactant else w.real(f'{tag}.nu.{ID}', hi=0., hi_strict=True)
         else:
-            nu[ID] = w.real(f'{tag}.nu.{ID}')
-    return nu
+            nu[ph, ID] = w.real(f'{tag}.nu.{ID}')
+    X = w.real(f'{tag}.X', lo=0., hi=1.)
+    for name, c in rows.items():
+        w.assume(w.eq(w.total([(c[ID] / mw[ID] if basis == 'wt' else c[ID]) * v for (ph, ID), v in nu.items()]), 0.))
+    return Spec(nu, r, X, basis)
 
 
-def proto_configs(tier):
-    return [{'name': f'r={r}', 'reactant': r} for r in P3]
+def make_rxn(sp, chems, tagged):
+    if tagged:
+        d = {ID: (ph, v) for (ph, ID), v in sp.nu.items()}
+        return tmo.Reaction(d, reactant=sp.r[1], X=sp.X, chemicals=chems, basis=sp.basis, phases=PH)
+    d = {ID: v for (ph, ID), v in sp.nu.items()}
+    return tmo.Reaction(d, reactant=sp.r[1], X=sp.X, chemicals=chems, basis=sp.basis)
 
 
-@group('C05/proto', configs=proto_configs, functions=['thermosteam.reaction._reaction:Reaction._reaction'], l0=True)
-def proto(w, cfg):
+def make_program(w, cfgprog, basis, rows, mw, chems, tagged, tag='rx', unit_reactant=False):
+    """cfgprog = {'kind':..., 'rxns': [desc...]} or {'kind':'system','members':[cfgprog...]} -> (program, real object)."""
+    kind = cfgprog['kind']
+    if kind == 'system':
+        members, objs = [], []
+        for n, m in enumerate(cfgprog['members']):
+            p, o = make_program(w, m, basis, rows, mw, chems, tagged, f'{tag}{n}', unit_reactant)
+            members.append(p); objs.append(o)
+        return {'kind': 'system', 'members': members}, tmo.ReactionSystem(*objs)
+    specs = [make_spec(w, f'{tag}{n}' if len(cfgprog['rxns']) > 1 else tag, d, basis, rows, mw, unit_reactant)
+             for n, d in enumerate(cfgprog['rxns'])]
+    rxns = [make_rxn(sp, chems, tagged) for sp in specs]
+    if kind == 'single': obj = rxns[0]
+    elif kind == 'parallel': obj = tmo.ParallelReaction(rxns)
+    elif kind == 'series': obj = tmo.SeriesReaction(rxns)
+    else: raise AssertionError(kind)
+    return {'kind': kind, 'specs': specs}, obj
+
+
+def _put(sv, i, v, symbolic):
+    """Plant a possibly-zero flow without a presence fork (contract level) / as the real code stores it (native)."""
+    d = sv.dct
+    if hasattr(d, 'put'): d.put(i, v)
+    elif v: d[i] = v
+
+
+def make_material(w, kind, pkg, tagged, name='m', values=None):
+    """
+    Returns (material, read, keys, stream) with read() -> {(phase|None, ID): value in the material's own units,
+    mol for streams} and the feed as the same kind of dict.  values: reuse the leaves of another material.
+    """
+    IDs = PKG[pkg]
+    phases = PH if tagged else (None,)
+    keys = [(ph, ID) for ph in phases for ID in IDs]
+    if values is None:
+        values = {k: w.real(f'{name}.{k[0] or "x"}.{k[1]}', lo=0.) for k in keys}
+    feed = dict(values)
+    if kind in ('sv', 'nd'):
+        table = [[values[ph, ID] for ID in IDs] for ph in phases]
+        if kind == 'nd':
+            arr = np.array(table if tagged else table[0], dtype=object if w.symbolic else float)
+            mat = arr
+            def read():
+                a = arr if tagged else [arr]
+                return {(ph, ID): a[i][j] for i, ph in enumerate(phases) for j, ID in enumerate(IDs)}
+        else:
+            mat = SparseArray(table) if tagged else SparseVector(table[0])
+            def read():
+                rws = mat.rows if tagged else [mat]
+                return {(ph, ID): rws[i].dct.get(j, 0.) for i, ph in enumerate(phases) for j, ID in enumerate(IDs)}
+        return mat, read, feed, None
+    th = W.thermo(IDs)
+    if tagged:
+        s = tmo.MultiStream(None, phases=PH, thermo=th)
+    else:
+        s = tmo.Stream(None, thermo=th, phase='l')
+    for ph, sv in W.rows_of(s):
+        for j, ID in enumerate(IDs):
+            _put(sv, j, values[(ph if tagged else None), ID], w.symbolic)
+
+    def read():
+        out = {}
+        cur = s.chemicals.IDs
+        for ph, sv in W.rows_of(s):
+            for j, ID in enumerate(cur):
+                out[(ph if tagged else None), ID] = sv.dct.get(j, 0.)
+        return out
+    if kind == 'massview':
+        return s.imass.data, read, feed, s
+    return s, read, feed, s
+
+
+def row_total(c, state, mw=None):
+    """sum_k c_k * state_k (state in mol), or with mw given state in mass units."""
+    return sum([(c[ID] / mw[ID] if mw else c[ID]) * v for (ph, ID), v in state.items() if ID in c], 0.)
+
+
+def snapshot_rxn(obj):
+    """Observable definition of a reaction object (frame clauses)."""
+    if isinstance(obj, tmo.ReactionSystem):
+        return [snapshot_rxn(i) for i in obj._reactions]
+    st = obj._stoichiometry
+    sts = st if isinstance(st, list) else [st]
+    dense = []
+    for a in sts:
+        for rw in (a.rows if hasattr(a, 'rows') else [a]):
+            dense.append([rw.dct.get(j, 0.) for j in range(rw.size)])
+    X = obj._X
+    return {'st': dense, 'X': list(X) if hasattr(X, '__iter__') else [X], 'basis': obj._basis,
+            'r': str(obj._reactant_index), 'chem': obj.chemicals.IDs}
+
+
+def same_rxn(w, a, b):
+    if isinstance(a, list):
+        return w.And(*[same_rxn(w, i, j) for i, j in zip(a, b)])
+    if (a['basis'], a['r'], a['chem']) != (b['basis'], b['r'], b['chem']) or len(a['st']) != len(b['st']):
+        return w.And(False)
+    cs = [w.eq(x, y) for ra, rb in zip(a['st'], b['st']) for x, y in zip(ra, rb)]
+    cs += [w.eq(x, y) for x, y in zip(a['X'], b['X'])]
+    return w.And(*cs)
+
+
+# --------------------------------------------------------------------------- structure families
+
+def _desc(ids, reactant, phase_of=None):
+    return {'nu': [[i, (phase_of or {}).get(i)] for i in ids], 'reactant': reactant}
+
+
+def _ph(ids, pattern):
+    return {i: p for i, p in zip(ids, pattern)}
+
+
+def programs(tier, tagged, pkg='P3'):
+    """Named reaction structures: which chemicals carry a coefficient, which is the reactant, how they are combined."""
+    a, b, c = P3
+    pho = (lambda ids, pat: _ph(ids, pat)) if tagged else (lambda ids, pat: None)
+    out = {}
+    # every choice of reactant, reactions touching 2 and 3 chemicals
+    for r in P3:
+        out[f'single3[{r}]'] = {'kind': 'single', 'rxns': [_desc(P3, r, pho(P3, 'lgg' if r == a else 'glg'))]}
+    out[f'single2[{a}>{b}]'] = {'kind': 'single', 'rxns': [_desc((a, b), a, pho((a, b), 'lg'))]}
+    out[f'single2[{c}>{a}]'] = {'kind': 'single', 'rxns': [_desc((c, a), c, pho((c, a), 'll'))]}
+    d1 = _desc((a, b), a, pho((a, b), 'lg'))
+    d2 = _desc((b, c), b, pho((b, c), 'gl'))
+    d3 = _desc(P3, a, pho(P3, 'lgg'))
+    d4 = _desc((a, c), c, pho((a, c), 'll'))
+    out['parallel[a>b|b>c]'] = {'kind': 'parallel', 'rxns': [d1, d2]}
+    out['series[a>b;b>c]'] = {'kind': 'series', 'rxns': [d1, d2]}
+    out['parallel[a>b|a>bc]'] = {'kind': 'parallel', 'rxns': [d1, d3]}       # same reactant twice
+    out['series[a>b;a>bc]'] = {'kind': 'series', 'rxns': [d1, d3]}
+    out['system[a>b;b>c]'] = {'kind': 'system', 'members': [{'kind': 'single', 'rxns': [d1]}, {'kind': 'single', 'rxns': [d2]}]}
+    out['system[par(a>b|b>c);c>a]'] = {'kind': 'system', 'members': [{'kind': 'parallel', 'rxns': [d1, d2]},
+                                                                     {'kind': 'single', 'rxns': [d4]}]}
+    if tier == 'thorough':
+        out['parallel3'] = {'kind': 'parallel', 'rxns': [d1, d2, d4]}
+        out['series3'] = {'kind': 'series', 'rxns': [d1, d2, d4]}
+        out['series4'] = {'kind': 'series', 'rxns': [d1, d2, d4, d3]}
+        out['parallel4'] = {'kind': 'parallel', 'rxns': [d1, d2, d4, d3]}
+        out['system[ser(a>b;b>c);par(a>b|c>a);a>bc]'] = {'kind': 'system', 'members': [
+            {'kind': 'series', 'rxns': [d1, d2]}, {'kind': 'parallel', 'rxns': [d1, d4]}, {'kind': 'single', 'rxns': [d3]}]}
+    return out
+
+
+# --------------------------------------------------------------------------- 1. the arithmetic kernels
+
+def kernel_configs(tier):
+    out = []
+    for tagged in (False, True):
+        for pname, prog in programs(tier, tagged).items():
+            for fn in ('_reaction', '_conversion'):
+                if tier == 'quick' and fn == '_conversion' and not pname.startswith(('single3[Water', 'parallel[a>b|b', 'series[a>b;b', 'system[par')):
+                    continue
+                out.append({'name': f'{"tagged" if tagged else "plain"};{pname};{fn}', 'tagged': tagged, 'prog': prog, 'fn': fn})
+    return out
+
+
+@group('C05/kernel', configs=kernel_configs, l0=True,
+       functions=['thermosteam.reaction._reaction:Reaction._reaction', 'thermosteam.reaction._reaction:Reaction._conversion',
+                  'thermosteam.reaction._reaction:Reaction._rescale', 'thermosteam.reaction._reaction:Reaction.__init__',
+                  'thermosteam.reaction._reaction:ParallelReaction._reaction', 'thermosteam.reaction._reaction:ParallelReaction._conversion',
+                  'thermosteam.reaction._reaction:SeriesReaction._reaction', 'thermosteam.reaction._reaction:SeriesReaction._conversion',
+                  'thermosteam.reaction._reaction:ReactionSystem._reaction', 'thermosteam.reaction._reaction:ReactionSystem._conversion',
+                  'thermosteam.reaction._reaction:ReactionSet.__init__',
+                  'thermosteam.reaction._parse:get_stoichiometric_array', 'thermosteam.reaction._xparse:get_stoichiometric_array'])
+def kernel(w, cfg):
+    """_reaction / _conversion on a bare sparse vector (phase-less) or sparse array (phase-tagged): exact algebra."""
     W.reset_caches()
-    th = W.thermo(P3)
-    chems = th.chemicals
-    r = cfg['reactant']
-    nu = _rxn_leaves(w, 'rx', P3, r)
-    X = w.real('X', lo=0., hi=1.)
-    MW = dict(zip(P3, chems.MW))
-    w.assume(w.eq(w.total([float(MW[i]) * nu[i] for i in P3]), 0.))
-    rxn = tmo.Reaction(dict(nu), reactant=r, X=X, chemicals=chems)
-    s, leaves = W.make_stream(w, 's', P3, 'l')
-    m = {ID: leaves['l', ID] for ID in P3}
-    rxn(s)
-    got = W.total_by_CAS(s)
-    mass0 = w.total([float(MW[i]) * m[i] for i in P3])
-    mass1 = w.total([float(MW[i]) * got[chems[i].CAS] for i in P3])
-    w.ensure('mass conserved', w.eq(mass0, mass1))
-    w.canary('canary', w.eq(mass0, mass1 + 1))
+    tagged = cfg['tagged']
+    chems = W.thermo(P3).chemicals
+    mw = _mw(P3)
+    rows = weights(w, P3)
+    prog, obj = make_program(w, cfg['prog'], 'mol', rows, mw, chems, tagged)
+    mat, read, feed, _ = make_material(w, 'sv', 'P3', tagged)
+    pre = snapshot_rxn(obj)
+    expected = spec_apply(prog, feed)
+    if cfg['fn'] == '_reaction':
+        obj._reaction(mat)
+        got = read()
+    else:
+        conv = obj._conversion(mat)
+        after = read()
+        w.ensure('material unchanged by _conversion', w.And(*[w.eq(after[k], feed[k]) for k in feed]))
+        rws = conv.rows if tagged else [conv]
+        phases = PH if tagged else (None,)
+        got = {(ph, ID): feed[ph, ID] + rws[i].dct.get(j, 0.) for i, ph in enumerate(phases) for j, ID in enumerate(P3)}
+    for k in feed:
+        w.ensure(f'flow[{k[0]},{k[1]}] = stoichiometric update', w.eq(got[k], expected[k]))
+    sp0 = all_specs(prog)[0]
+    if cfg['prog']['kind'] == 'single':
+        w.ensure('reactant consumed = X * feed', w.eq(feed[sp0.r] - got[sp0.r], sp0.X * feed[sp0.r]))
+        for k in sp0.nu:
+            w.ensure(f'produced[{k[1]}] * |nu_r| = X * feed_r * nu', w.eq((got[k] - feed[k]) * (-sp0.nu[sp0.r]), sp0.X * feed[sp0.r] * sp0.nu[k]))
+    for name, c in rows.items():
+        w.ensure(f'{name} conserved', w.eq(row_total(c, got), row_total(c, feed)))
+    w.ensure('reaction object unchanged', same_rxn(w, pre, snapshot_rxn(obj)))
+    w.canary('canary: reactant consumed = X * feed + 1', w.eq(feed[sp0.r] - got[sp0.r], sp0.X * feed[sp0.r] + 1))
+    w.note(expected=expected, got=got)
